@@ -116,17 +116,17 @@ impl Segment {
             self.log_path, self.index_path
         );
 
+        // A missing index file (it is created below) says nothing about the content of the log.
+        let index_exists = tokio::fs::try_exists(&self.index_path)
+            .await
+            .unwrap_or(false);
         if self.log_reader.is_none() || self.index_reader.is_none() {
             self.initialize_writing().await?;
             self.initialize_reading().await?;
         }
 
-        let log_size_bytes = self.log_size_bytes.load(Ordering::Acquire);
+        let mut log_size_bytes = self.log_size_bytes.load(Ordering::Acquire);
         info!("Log file size: {}", IggyByteSize::from(log_size_bytes));
-
-        // TODO(hubcio): in future, remove size_bytes and use only atomic log_size_bytes everywhere
-        self.size_bytes = IggyByteSize::from(log_size_bytes);
-        self.last_index_position = log_size_bytes as _;
 
         self.indexes = Some(
             self.index_reader
@@ -137,6 +137,41 @@ impl Segment {
                 .with_error_context(|error| format!("Failed to load indexes for {self}. {error}"))
                 .map_err(|_| IggyError::CannotReadFile)?,
         );
+
+        // The index entry is saved after its batch, so the bytes which follow the last indexed batch are a leftover
+        // of an append interrupted by a crash. They have to be discarded, otherwise the batches appended from now on
+        // would make them readable as (garbage) data.
+        let indexed_log_size = match self.indexes.as_ref().unwrap().last() {
+            Some(index) => {
+                let log_reader = self.log_reader.as_ref().unwrap();
+                log_reader.batch_end_position(index.position as u64).await?
+            }
+            None if index_exists => Some(0),
+            None => None,
+        };
+        if let Some(indexed_log_size) = indexed_log_size.filter(|size| *size < log_size_bytes) {
+            warn!(
+                "Log file {} has {} bytes after the last indexed batch (interrupted append), truncating it to {} bytes.",
+                self.log_path, log_size_bytes - indexed_log_size, indexed_log_size
+            );
+            let log_file = tokio::fs::OpenOptions::new()
+                .write(true)
+                .open(&self.log_path)
+                .await
+                .map_err(|_| IggyError::CannotReadFile)?;
+            log_file
+                .set_len(indexed_log_size)
+                .await
+                .map_err(|_| IggyError::CannotWriteToFile)?;
+            let _ = log_file.sync_all().await;
+            self.log_size_bytes
+                .store(indexed_log_size, Ordering::Release);
+            log_size_bytes = indexed_log_size;
+        }
+
+        // TODO(hubcio): in future, remove size_bytes and use only atomic log_size_bytes everywhere
+        self.size_bytes = IggyByteSize::from(log_size_bytes);
+        self.last_index_position = log_size_bytes as _;
 
         let last_index_offset = if self.indexes.as_ref().unwrap().is_empty() {
             0_u64
